@@ -128,6 +128,7 @@ func (r *immRun) step(op string) *failures {
 	wasAbsent := m[k] < 0
 	r.ops = append(r.ops, op)
 	r.opPos = append(r.opPos, r.pos)
+	progress++ // (single writer; read by the watchdog)
 	var nt *database.VerifTreapImmutable
 	if put {
 		nt = top.t.Put(keys[k], vals[v])
@@ -277,6 +278,9 @@ func (r *immRun) dfs() {
 				s := &r.stack[i]
 				s.fwd, s.bwd, s.fi, s.bi = saved[i].fwd, saved[i].bwd, saved[i].fi, saved[i].bi
 			}
+		}
+		if r.broken || r.capped {
+			return // (broken: nothing on the stack can be trusted any more)
 		}
 	}
 }
